@@ -366,7 +366,7 @@ static void runSetup(const std::string &name, const vf::Args &a, vf::Report &rep
     Setup S = makeSetup(name);
     Recorder R;
     installValidator(S, R);
-    int maxNd = a.thorough() ? 14 : 10;
+    int maxNd = a.thorough() ? 16 : 12;
     ob::State *s1 = S.si->allocState(), *s2 = S.si->allocState();
     std::set<std::string> doneKeys;
     for (int factor : {1, 2, 3})
@@ -430,7 +430,7 @@ static void runLists(const vf::Args &a, vf::Report &rep)
         return (bits >> i) & 1UL;
     });
     si->setup();
-    int maxC = a.thorough() ? 14 : 10;
+    int maxC = a.thorough() ? 16 : 12;
     std::vector<ob::State *> st(maxC + 2);
     for (size_t i = 0; i < st.size(); ++i)
     {
